@@ -44,7 +44,11 @@ def run_oracle(binary, pid, seed, prefix=None, timeout=300):
     try:
         p = subprocess.run(cmd, stdout=subprocess.PIPE, stderr=subprocess.DEVNULL, text=True, timeout=timeout)
     except subprocess.TimeoutExpired:
-        return []
+        # the oracles take milliseconds (C16: seconds) on the unchanged tree: a run that does not finish means the library no
+        # longer terminates (or became absurdly slow) on an input the property covers
+        return [{'property': pid, 'oracle': 'the bounded oracle did not finish within %d s (every run on the unchanged tree takes well under 10 s)' % timeout,
+                 'input': 'oracle %s seed %s%s' % (pid, seed, (' under ' + ' '.join(prefix)) if prefix else ''),
+                 'observed': 'no result after %d s' % timeout, 'expected': 'termination', 'bounded': True}]
     res = []
     for line in p.stdout.split('\n'):
         line = line.strip()
